@@ -496,7 +496,7 @@ pub fn filter(filter: &Unifiable,
             } // match
         } // while
 
-        let new_list = make_linked_list(false, filtered_terms);
+        let new_list = list_of_terms(filtered_terms);
         return Some(new_list);
     }
     return None;
